@@ -320,8 +320,7 @@ func ruleQ2(c *an.Ctx, quote *ssa.Function) {
 				// from the top of s: reach the loop header again without an escape write and without crossing g
 				found := findFrom(s, func(in ssa.Instruction) bool { return in.Block() == header && in == header.Instrs[0] },
 					isEscapeWrite, func(from, to *ssa.BasicBlock) bool {
-						cnd, t, ok := an.EdgeCond(from, to)
-						return ok && g.pred(an.Normalize(cnd, t))
+						return an.EdgeHolds(from, to, g.pred)
 					})
 				c.Check("Q2", "raw-copy-requires("+g.name+")@quoteString", s.Instrs[0].Pos(), !found,
 					"an ASCII byte may be copied unescaped only if "+g.name+" (otherwise the lexer's string rule reads it differently)")
